@@ -3,6 +3,7 @@
 -/
 import MptModel.Impl.Convert
 import MptModel.Lemmas.Convert
+set_option linter.unusedSimpArgs false
 namespace Mpt.Conv
 open Mpt.Scalar Mpt.Flt
 
@@ -73,7 +74,7 @@ theorem query_pair (src tgt : Ty) (hp : checkShapePair src tgt = true) (s : Src)
         | fault => simp [verdict]
       · simp [hsup, verdict]
 
-theorem mem_all (x : Ty) : x ∈ Ty.all := by cases x <;> simp [Ty.all]
+theorem mem_all (ty : Ty) : ty ∈ Ty.all := by cases ty <;> simp [Ty.all]
 
 theorem query_of_table (h : checkShapeTable = true) (src tgt : Ty) (s : Src) :
     verdict (conv src tgt s false) = verdict (conv src tgt s true) := by
